@@ -612,16 +612,18 @@ func init() {
 			}
 			reflectPanic("reflect: Call with too many input arguments")
 		}
+		fixed := sig.Params().Len()
 		if sig.Variadic() {
-			Unsupported("reflect.Value.Call of variadic function")
+			fixed--
+			if len(in) < fixed {
+				reflectPanic("reflect: Call with too few input arguments")
+			}
 		}
-		var args []value
-		for k, x := range in {
+		conv := func(x value, pt types.Type) value {
 			xv := rvArg(x)
 			if xv.t == nil {
 				reflectPanic("reflect: Call using zero Value argument")
 			}
-			pt := sig.Params().At(k).Type()
 			if !assignable(xv.t, pt) {
 				reflectPanic("reflect: Call using " + reflectTypeString(xv.t) + " as type " + reflectTypeString(pt))
 			}
@@ -629,7 +631,20 @@ func init() {
 			if _, isI := pt.Underlying().(*types.Interface); isI && xv.kind() != reflect.Interface {
 				av = iface{t: xv.t, v: av}
 			}
-			args = append(args, av)
+			return av
+		}
+		var args []value
+		for k, x := range in[:fixed] {
+			args = append(args, conv(x, sig.Params().At(k).Type()))
+		}
+		if sig.Variadic() {
+			// the remaining arguments are packed into the variadic slice (nil when there are none)
+			et := sig.Params().At(fixed).Type().Underlying().(*types.Slice).Elem()
+			var rest []value
+			for _, x := range in[fixed:] {
+				rest = append(rest, conv(x, et))
+			}
+			args = append(args, rest)
 		}
 		var res value
 		if rv.method != nil {
